@@ -3,7 +3,9 @@ CONSTANTS
   Names = {1,2,3,4,5,6}
   Types = {"int", "float", "str", "bool"}
   Vals = {1,2,3,4,5}
-  MaxSize = 6
-INVARIANTS UniqueNames LastAgrees
+  MaxSize = 100000
+  Ext = {"alias", "protected", "throw"}
+  RangeN = {}
+INVARIANTS UniqueNames LastAgrees NoneNotQueried
 POSTCONDITION Post
 CHECK_DEADLOCK FALSE
